@@ -6,6 +6,7 @@ class CPoolSpec(Spec):
     property_id = 'C17'
     world = 'cpool'
     isolated_mutants = True
+    shrink_groups = (('nclients', 'client_tenant', ()),)
     wall_cap = {'quick': 1200, 'thorough': 7200}
     strata = {
         'quick': [('core', 5), ('nofault', 3), ('cancel', 1), ('poolfault', 1)],
